@@ -44,6 +44,13 @@ fn piece(id: u64, len: usize) -> Vec<u8> {
 
 /// Runs one operation sequence on a real Window and the model in lock-step.
 fn run_seq(reader: bool, size: u16, chunk: usize, src: &[u8], src_path: &Path, scratch: &Path, ops: &[Op], rep: &mut PureReport) {
+    run_seq_grow(reader, size, chunk, src, src_path, scratch, ops, rep, 0)
+}
+
+/// `grow` > 0: the last `grow` bytes of `src` are appended to the source file through another handle after the Window
+/// was created (a file that is still being written); the pieces handed out must still be the file's bytes in order.
+#[allow(clippy::too_many_arguments)]
+fn run_seq_grow(reader: bool, size: u16, chunk: usize, src: &[u8], src_path: &Path, scratch: &Path, ops: &[Op], rep: &mut PureReport, grow: usize) {
     rep.evaluations += 1;
     let file = if reader {
         File::open(src_path).expect("open source")
@@ -51,6 +58,11 @@ fn run_seq(reader: bool, size: u16, chunk: usize, src: &[u8], src_path: &Path, s
         File::create(scratch).expect("create scratch")
     };
     let mut win = Window::new(size, chunk, file);
+    if reader && grow > 0 {
+        use std::io::Write;
+        let mut f = std::fs::OpenOptions::new().append(true).open(src_path).expect("append to source");
+        f.write_all(&src[src.len() - grow..]).expect("append");
+    }
     let mut m = Model { file: if reader { src.to_vec() } else { vec![] }, pos: 0, eof: false, dq: VecDeque::new(), size, chunk, next_piece: 0 };
     let describe = |upto: usize| Json::obj().set("mode", Json::s(if reader { "reader" } else { "writer" })).set("size", Json::i(size)).set("chunk", Json::u(chunk)).set("file_len", Json::u(src.len())).set("ops", Json::s(&format!("{:?}", &ops[..=upto.min(ops.len() - 1)])));
     let mut interesting = false;
@@ -282,8 +294,13 @@ pub fn c18(thorough: bool, miri: bool, seed: u64, threads: usize) -> Json {
                             _ => r.next(),
                         };
                         let src = if reader { crate::sim::content(src_seed, 0, flen as u64) } else { vec![] };
+                        // one in eight reader runs: the source keeps growing after the Window exists; one in sixteen: a
+                        // file whose metadata reports length 0 although it has content (procfs)
+                        let special = if reader { r.below(16) } else { 99 };
+                        let grow = if special < 2 && src.len() > 1 { 1 + r.below(src.len() as u64 - 1) as usize } else { 0 };
+                        let proc_src: Option<Vec<u8>> = if special == 2 { std::fs::read("/proc/version").ok() } else { None };
                         if reader {
-                            std::fs::write(&src_path, &src).unwrap();
+                            std::fs::write(&src_path, &src[..src.len() - grow]).unwrap();
                         }
                         let n = r.range(1, if size > 1000 { 30 } else { 200 }) as usize;
                         let mut held = 0usize;
@@ -307,7 +324,15 @@ pub fn c18(thorough: bool, miri: bool, seed: u64, threads: usize) -> Json {
                             })
                             .collect();
                         let _ = held;
-                        run_seq(reader, size, chunk, &src, &src_path, &scratch, &ops, &mut rep);
+                        if let Some(ps) = &proc_src {
+                            run_seq(true, size, chunk.min(64), ps, Path::new("/proc/version"), &scratch, &ops, &mut rep);
+                            rep.class("reader-procfs-source");
+                            continue;
+                        }
+                        run_seq_grow(reader, size, chunk, &src, &src_path, &scratch, &ops, &mut rep, grow);
+                        if grow > 0 {
+                            rep.class("reader-growing-source");
+                        }
                     }
                     rep.class("random-batch");
                 } else {
